@@ -117,6 +117,17 @@ func routing(c *engine.Ctx) {
 					}
 				case key == elem+".Path.Target":
 					nPath++
+					// a fresh request replaces nothing: only when the map has no request for that target yet
+					fresh := false
+					for _, x := range conds {
+						if nl := normGetters(x.L); strings.HasPrefix(nl, "has($subContext.treqs") && strings.Contains(nl, "["+elem+".Path.Target]") && x.R == "true" && x.Mask == 5 {
+							fresh = true
+						}
+					}
+					if !fresh {
+						o.Fail(&engine.Violation{Key: "splitSubscribeRequest|request of a target replaced", Pos: c.P.Pos(e.Pos), Func: p.Root.Name(), Msg: "a fresh request is stored under a path target on a path that does not establish that the map has none for it yet: the entries collected for that target so far are lost"})
+						return
+					}
 					if !strings.HasPrefix(rhs, "&gnmi.SubscribeRequest{") || !has(elem+".Path.Target", `""`, 5) || !has(subs+".Prefix.Target", `""`, 2) {
 						o.Fail(&engine.Violation{Key: "splitSubscribeRequest|path routing", Pos: c.P.Pos(e.Pos), Func: p.Root.Name(), Msg: "a split request is stored under a path target without 'prefix target empty ∧ path target ≠ \"\"', or is not a fresh request"})
 						return
@@ -136,6 +147,16 @@ func routing(c *engine.Ctx) {
 				o.Eval(1)
 				// tr.Subscribe.Subscription = append(tr.Subscribe.Subscription, sub) with tr the request of this iteration's key
 				base := strings.TrimSuffix(lhs, ".Subscribe.Subscription")
+				hasReq := false
+				for _, x := range conds {
+					if nl := normGetters(x.L); strings.HasPrefix(nl, "has($subContext.treqs") && strings.Contains(nl, "["+elem+".Path.Target]") && x.R == "true" && x.Mask == 2 {
+						hasReq = true
+					}
+				}
+				if hasReq && strings.HasPrefix(base, "&gnmi.SubscribeRequest{") {
+					o.Fail(&engine.Violation{Key: "splitSubscribeRequest|existing request not reused", Pos: c.P.Pos(e.Pos), Func: p.Root.Name(), Msg: "the map already has a request for the entry's target, but the entry is appended to a fresh one"})
+					return
+				}
 				okBase := strings.HasPrefix(base, "&gnmi.SubscribeRequest{") || base == "$subContext.treqs["+elem+".Path.Target]" || strings.HasPrefix(base, "$subContext.treqs["+elem+".Path.Target]")
 				if rhs != "append("+lhs+","+elem+")" && !(strings.HasPrefix(rhs, "append(") && strings.HasSuffix(rhs, ","+elem+")") && strings.Contains(rhs, ".Subscribe.Subscription")) || !okBase {
 					o.Fail(&engine.Violation{Key: "splitSubscribeRequest|append", Pos: c.P.Pos(e.Pos), Func: p.Root.Name(), Msg: "the iterated subscription entry itself is not appended to the request of its own path target: " + lhs + " := " + rhs})
@@ -274,6 +295,11 @@ func subscribeRefusals(c *engine.Ctx) {
 		c.Outcome(engine.Outcome{ID: x.id, Pkg: pkgNbGnmi, PathsOverride: pp, When: x.when, Min: 1, MustNot: sends, Returns: "err!=nil",
 			Why: "a second subscription on the stream, a poll before subscribing, or a message of neither kind is refused and nothing is forwarded"})
 	}
+	// the refusal of a second subscription (C19.3a) rests on the first one being remembered
+	c.Guard(engine.Guard{ID: "C19.3f", Pkg: pkgNbGnmi, PathsOverride: pp, Min: 1,
+		Sel:     engine.Sel{Call: "northbound/gnmi/v2.splitSubscribeRequest"},
+		Require: "#wrote(northbound/gnmi/v2.subContext.req=@REQ) && $subContext.req == nil",
+		Why:     "the accepted subscription is stored in the stream's context before it is split: otherwise a second subscription on the same stream is accepted too"})
 	c.Outcome(engine.Outcome{ID: "C19.3d", Pkg: pkgNbGnmi, PathsOverride: pp, When: "#failed(northbound/gnmi/v2.splitSubscribeRequest)", Min: 1,
 		MustNot: []engine.Sel{{Call: "northbound/gnmi/v2.Server.sendSubscriptionRequest"}}, Returns: "err!=nil", Why: "a request that cannot be split is refused"})
 	sp, err := subPaths(c, "v2.splitSubscribeRequest")
